@@ -22,7 +22,7 @@ RULE = ("generated signatures (<= 5 parameters over positional-only / positional
 ASSUMPTIONS = ["payload values already have the annotated types (coercion is not part of the property)", "Pydantic v1 converter not exercised",
                "payload keys never collide with dependency parameter names"]
 EVAL_COUNTER = "bindings_judged"
-REQUIRED = ["bindings_judged", "shape_empty_string", "shape_missing_required", "shape_extra", "converters_compared", "outputs_roundtripped", "e2e_default_converter", "bindings_with_off_type_default_used"]
+REQUIRED = ["bindings_judged", "shape_empty_string", "shape_missing_required", "shape_extra", "converters_compared", "outputs_roundtripped", "e2e_default_converter", "bindings_with_off_type_default_used", "rewritten_bucket_steps"]
 CASE_TIMEOUT = 120
 
 
@@ -347,11 +347,25 @@ async def e2e(loop, case, out, stats, fps):
             for kw in ({}, {"use_args_bucketer": False}, {"args": {}}):
                 await Job(name, id_=f"k{n_catch}", store_result=False, _connection=conn, **kw).enqueue()
                 n_catch += 1
-        w = Worker(routers=[r, rb], messages_limit=len(plans) + n_catch, tasks_limit=1, handle_signals=[], _connection=conn)
+        # a two-step pipeline whose steps share one argument bucket id (rewritten between the steps, by the first step itself)
+        from rv.actors import register_bucket_chain_actor
+
+        chain_calls = {}
+        for cname, rt in (("chain_default", r), ("chain_basic", rb)):
+            chain_calls[cname] = []
+            register_bucket_chain_actor(rt, cname, conn, chain_calls[cname], f"{cname}-args")
+            await Job(cname, id_=f"{cname}-1", args={"step": 1, "note": "first", "extra": 7}, args_id=f"{cname}-args", use_args_bucketer=True, store_result=False, _connection=conn).enqueue()
+        w = Worker(routers=[r, rb], messages_limit=len(plans) + n_catch + 4, tasks_limit=1, handle_signals=[], _connection=conn)
         try:
             await asyncio.wait_for(w.run(), 60)
         except asyncio.TimeoutError:
             pass  # (judged below: whoever did not run shows up there)
+        for cname, calls_ in chain_calls.items():
+            stats["bindings_judged"] += 2
+            stats["rewritten_bucket_steps"] += 1
+            want = [{"step": 1, "note": "first", "extra": 7}, {"step": 2, "note": "none", "extra": None}]
+            if calls_ != want:
+                out.append(V("bound_wrong" if len(calls_) == 2 else "spurious_failure", f"{cname.split('_')[1]}/rewritten-argument-bucket", f"two steps sharing the argument bucket id {cname}-args (rewritten by step 1): called with {calls_}, expected {want}"))
         stats["catch_all_noargs_jobs"] += n_catch
         if len(catch_calls) != n_catch:
             out.append(V("spurious_failure", "basic/noargs/catch-all", f"{n_catch} argument-less jobs for catch-all actors, {len(catch_calls)} executions"))
